@@ -3,3 +3,4 @@
 //! and the check fails).  Never linked into anything.
 #![allow(dead_code, unused)]
 pub mod c05;
+pub mod c08;
